@@ -331,6 +331,19 @@ func c08SCIONListener(r *simcore.Run, tp *simcore.Tape) map[string]any {
 					if len(raw) > 40 {
 						raw[36+tp.Intn(4, "pm")] = byte(tp.Intn(256, "pmv"))
 					}
+				case 6: // SCION payload length and UDP length both announce more (or less) than was sent
+					if tp.Bool(1, 2, "lenauth") {
+						raw = c08SCIONPacket(tp, l4, segs, 28, withTS, ntpReq())
+					}
+					if len(raw) > 56 {
+						v := []int{0xffff, 0x8000, 2000, 1200, 57, 55, 8, 0}[tp.Intn(8, "lenv")]
+						binary.BigEndian.PutUint16(raw[6:], uint16(v))
+						u := len(raw) - 56 // the UDP header precedes the 48-byte payload
+						binary.BigEndian.PutUint16(raw[u+4:], uint16(max(0, v-tp.Intn(2, "lend")*40)))
+						if tp.Bool(1, 3, "lencut") {
+							raw = raw[:len(raw)-1-tp.Intn(47, "cut")]
+						}
+					}
 				}
 				w.net.Inject(w.net.NewDatagram(rtr, netip.AddrPortFrom(netip.MustParseAddr(scSrvIP), port), raw, "crafted"), time.Duration(10+i)*time.Microsecond)
 				crafted++
